@@ -44,8 +44,6 @@ Proof.
   - intros y Hy. apply H6. rewrite E. right. exact Hy.
 Qed.
 
-Definition no_group_top (e : expr) : bool := match e with EGroup _ => false | _ => true end.
-
 (** * unfolding equations *)
 Section Unfold.
 Variable p : program.
@@ -231,8 +229,23 @@ Definition mbin (f : nat) (stk : list node) (me : caller) (a b : expr) (op : Z -
       end
   end.
 
-(** [EGroup] is left folded: well-formed programs have none *)
-Lemma eval_S : forall f stk me e fr s, no_group_top e = true ->
+(** the members of an unordered group are read in list order *)
+Section Group.
+Variables (f : nat) (stk : list node) (me : caller).
+Fixpoint mgroup (ns : list node) (acc : Z) (fr : frame) (ms : list node) (s : state)
+  : res (eout * frame * list node * state) :=
+  match ns with
+  | [] => Ok (EVal acc, fr, ms, s)
+  | n :: r =>
+      let* (x, fr1, m1, s1) := mread f stk me n fr s in
+      match x with
+      | EUnwind => Ok (EUnwind, fr1, ms ++ m1, s1)
+      | EVal z => mgroup r (acc + z) fr1 (ms ++ m1) s1
+      end
+  end.
+End Group.
+
+Lemma eval_S : forall f stk me e fr s,
   meval (S f) stk me e fr s =
   match e with
   | EConst z => Ok (EVal z, fr, [], s)
@@ -251,9 +264,11 @@ Lemma eval_S : forall f stk me e fr s, no_group_top e = true ->
           let* (y, fr2, m2, s2) := meval f stk me (if xv =? 0 then b else a) fr1 s1 in
           Ok (y, fr2, m1 ++ m2, s2)
       end
-  | EGroup _ => Panic 6
+  | EGroup ns =>
+      let* (x, fr1, m1, s1) := mgroup f stk me ns 0 (fr_set_unordered fr true) [] s in
+      Ok (x, fr_set_unordered fr1 false, m1, s1)
   end.
-Proof. intros f stk me e fr s H. destruct e; try reflexivity. discriminate. Qed.
+Proof. intros f stk me e fr s. destruct e; reflexivity. Qed.
 
 Lemma repair_S : forall f stk c n s,
   mrepair (S f) stk c n s =
